@@ -1,6 +1,6 @@
 (* Props/C06.v — property C06: single-threaded and parallel traversal report the same entries, once each.
    Only statements; every proof is one `exact` (or a vm_compute witness).  The Check lines pin the statements. *)
-From RG Require Import Base.Bytes Model.Walk Spec.WalkSpec Proofs.WalkProofs Proofs.WalkTotal.
+From RG Require Import Base.Bytes Model.Walk Model.WalkIgErr Spec.WalkSpec Proofs.WalkProofs Proofs.WalkTotal Proofs.WalkIgErr.
 From Coq Require Import Permutation.
 
 (* 1. The skipping decision of the serial walker (Walk::skip_entry) and of the parallel walker
@@ -191,6 +191,78 @@ Proof.
     destruct H as [H|[H|[]]]; injection H as <- <-; cbn in HT; discriminate.
   - intros i t H. destruct i as [|[|[|[|i]]]]; cbn in H; injection H as <-; cbn; discriminate.
 Qed.
+
+(* 7. Partial errors of a directory's ignore files (Model/WalkIgErr.v: building a directory's matcher yields
+      (matcher, option error)).  In both walkers the matcher installed for a directory is the one add_child returned —
+      the directory's node with [fst (compile ..)] on top of the unchanged stack — whatever error accompanied it (also for
+      a skipped directory in the serial walker); the error itself goes to the entry. *)
+Theorem partial_error_keeps_matcher :
+  forall (matcher igerr : Type) (compile : bytes -> nat -> matcher * option igerr) (fs : fsys)
+         (ig : mstack matcher) (e : dent) (skipped : bool),
+    fst (serial_dir_push matcher igerr compile fs skipped ig e)
+      = {| in_dir := de_path e; in_ino := hino fs e; in_m := fst (compile (de_path e) (hino fs e)) |} :: ig
+    /\ fst (par_read_dir matcher igerr compile ig e)
+      = {| in_dir := de_path e; in_ino := de_ino e; in_m := fst (compile (de_path e) (de_ino e)) |} :: ig
+    /\ snd (par_read_dir matcher igerr compile ig e) = snd (compile (de_path e) (de_ino e))
+    /\ snd (serial_dir_push matcher igerr compile fs false ig e) = snd (compile (de_path e) (hino fs e)).
+Proof. exact partial_error_keeps_matcher_proof. Qed.
+Print Assumptions partial_error_keeps_matcher.
+
+(* 7b. the explicit stack and Model/Walk.v's (path, inode) stack: the two pushes erase to exactly the pushes of
+       walk_step / run_one, and push, pop and the empty stack keep "every matcher is what compile returns" *)
+Theorem push_commutes_with_erase :
+  forall (matcher igerr : Type) (compile : bytes -> nat -> matcher * option igerr) (fs : fsys)
+         (ig : mstack matcher) (e : dent) (skipped : bool),
+    erase matcher (fst (serial_dir_push matcher igerr compile fs skipped ig e)) = (de_path e, hino fs e) :: erase matcher ig
+    /\ erase matcher (fst (par_read_dir matcher igerr compile ig e)) = (de_path e, de_ino e) :: erase matcher ig.
+Proof. exact push_erase_proof. Qed.
+Print Assumptions push_commutes_with_erase.
+
+Theorem matcher_stack_wf_preserved :
+  forall (matcher igerr : Type) (compile : bytes -> nat -> matcher * option igerr) (fs : fsys)
+         (ig : mstack matcher) (e : dent) (skipped : bool),
+    wf_mstack matcher igerr compile ig ->
+    wf_mstack matcher igerr compile (fst (serial_dir_push matcher igerr compile fs skipped ig e))
+    /\ wf_mstack matcher igerr compile (fst (par_read_dir matcher igerr compile ig e))
+    /\ wf_mstack matcher igerr compile (tl ig)
+    /\ wf_mstack matcher igerr compile [].
+Proof. exact wf_preserved_proof. Qed.
+Print Assumptions matcher_stack_wf_preserved.
+Example matcher_stack_wf_nonvacuous :
+  wf_mstack nat unit (fun _ _ => (7, Some tt)) [{| in_dir := []; in_ino := 0; in_m := 7 |}].
+Proof. reflexivity. Qed.
+
+Theorem verdict_is_function_of_dir_stack :
+  forall (matcher igerr : Type) (compile : bytes -> nat -> matcher * option igerr)
+         (verdict : mstack matcher -> dent -> bool) (ig : mstack matcher) (e : dent),
+    wf_mstack matcher igerr compile ig ->
+    verdict ig e = should_skip_of matcher igerr compile verdict (erase matcher ig) e.
+Proof. exact verdict_on_wf_proof. Qed.
+Print Assumptions verdict_is_function_of_dir_stack.
+
+(* 7c. hence the property for trees with malformed ignore lines: for EVERY compile function (in particular one that
+       reports an error for some or all directories) and every verdict over the explicit matcher stack *)
+Theorem serial_eq_parallel_partial_errors :
+  forall (matcher igerr : Type) (compile : bytes -> nat -> matcher * option igerr) (fs : fsys)
+         (verdict : mstack matcher -> dent -> bool)
+         (max_depth : option nat) (max_filesize : option N) (follow_links same_fs has_filter : bool)
+         (filter : dent -> bool) (rk : nat -> nat) (B : nat) (roots : list (bytes * nat)),
+    ranked fs rk B -> links_ok fs ->
+    exists n souts pouts,
+      (forall F, serial_walk fs max_depth max_filesize follow_links same_fs has_filter filter
+                   (should_skip_of matcher igerr compile verdict) (n + F) roots = Some souts) /\
+      (forall F, par_walk fs max_depth max_filesize follow_links same_fs has_filter filter
+                   (should_skip_of matcher igerr compile verdict) (n + F) roots = Some pouts) /\
+      Permutation (map okey souts) (map okey pouts).
+Proof. exact serial_eq_parallel_partial_errors_proof. Qed.
+Print Assumptions serial_eq_parallel_partial_errors.
+
+(* 7d. the statement has teeth: installing the matcher only when no error came with it (seeded change C08-21) violates 7 *)
+Theorem only_if_ok_loses_matcher :
+  exists (compile : bytes -> nat -> nat * option unit) (e : dent),
+    fst (par_read_dir_only_if_ok nat unit compile [] e) <> fst (par_read_dir nat unit compile [] e).
+Proof. exact only_if_ok_loses_matcher_proof. Qed.
+Print Assumptions only_if_ok_loses_matcher.
 
 Check serial_eq_parallel :
   forall (fs : fsys) (max_depth : option nat) (max_filesize : option N) (follow_links same_fs has_filter : bool)
